@@ -26,8 +26,25 @@ class ClientMetadataClaims(BaseClaims):
         "software_version",
     ]
 
+    #: members that are JSON arrays of strings
+    ARRAY_CLAIMS = ["redirect_uris", "grant_types", "response_types", "contacts"]
+    #: members that are JSON strings
+    STRING_CLAIMS = [
+        "token_endpoint_auth_method",
+        "client_name",
+        "client_uri",
+        "logo_uri",
+        "scope",
+        "tos_uri",
+        "policy_uri",
+        "jwks_uri",
+        "software_id",
+        "software_version",
+    ]
+
     def validate(self):
         self._validate_essential_claims()
+        self._validate_claim_types()
         self.validate_redirect_uris()
         self.validate_token_endpoint_auth_method()
         self.validate_grant_types()
@@ -217,6 +234,18 @@ class ClientMetadataClaims(BaseClaims):
         value is specific to the software itself and is outside the scope
         of this specification.
         """
+
+    def _validate_claim_types(self):
+        for key in self.ARRAY_CLAIMS:
+            value = self.get(key)
+            if value is not None and not (
+                isinstance(value, list) and all(isinstance(v, str) for v in value)
+            ):
+                raise InvalidClaimError(key)
+        for key in self.STRING_CLAIMS:
+            value = self.get(key)
+            if value is not None and not isinstance(value, str):
+                raise InvalidClaimError(key)
 
     def _validate_uri(self, key, uri=None):
         if uri is None:
